@@ -50,6 +50,23 @@ class _ReparseAll(Exception):
     source instead."""
 
 
+def _is_header_scaffold(a: AST) -> bool:
+    """Whether a block statement reparsed from its header alone holds just the scaffold which was put behind that header,
+    a ` pass` body (`case _: pass` for a `Match`) and the `except: pass` of a `try`."""
+
+    if a.__class__ is Match:
+        return (len(cases := a.cases) == 1 and not (case := cases[0]).guard and len(body := case.body) == 1
+                and body[0].__class__ is Pass)
+
+    if len(body := a.body) != 1 or body[0].__class__ is not Pass or getattr(a, 'orelse', None) or getattr(a, 'finalbody', None):
+        return False
+
+    if (handlers := getattr(a, 'handlers', None)) is not None:  # Try, TryStar
+        return len(handlers) == 1 and len(body := handlers[0].body) == 1 and body[0].__class__ is Pass
+
+    return True
+
+
 def _reparse_raw_base(
     self: fst.FST,
     new_lines: list[str],
@@ -104,7 +121,7 @@ def _reparse_raw_base(
         elif copy.col != self.col:  # statement moved to a different column, alone that is fine but not among its siblings or above its own body
             raise _ReparseAll
 
-        elif not set_ast and copy.a.__class__ is not self.a.__class__:  # only block header reparsed and the old body will be reused, must still be same kind of block
+        elif not set_ast and (copy.a.__class__ is not self.a.__class__ or not _is_header_scaffold(copy.a)):  # only block header reparsed and the old body will be reused, must still be same kind of block and hold nothing but the scaffold that was put behind the header (new header text can bring a colon and clauses of its own, 'a: pass\nelse')
             raise _ReparseAll
 
         if (scaffold
